@@ -185,6 +185,28 @@ func ruleB1(p *Prog, r *Report) {
 		ii, ok := iface.Underlying().(*types.Interface)
 		return ok && (types.Implements(nt, ii) || types.Implements(types.NewPointer(nt), ii))
 	}
+	// a private helper that only insertions call decides for insertions
+	isInsert0 := isInsert
+	var insertOnly func(f *ssa.Function, depth int) bool
+	insertOnly = func(f *ssa.Function, depth int) bool {
+		if isInsert0(f) {
+			return true
+		}
+		if depth > 2 || f.Object() == nil || f.Object().Exported() {
+			return false
+		}
+		sites := p.CallersOf(f)
+		if len(sites) == 0 {
+			return false
+		}
+		for _, cs := range sites {
+			if !insertOnly(TopLevel(cs.Caller), depth+1) {
+				return false
+			}
+		}
+		return true
+	}
+	isInsert = func(f *ssa.Function) bool { return insertOnly(f, 0) }
 	funcs := p.TopFuncs()
 	sort.Slice(funcs, func(i, j int) bool { return p.Name(funcs[i]) < p.Name(funcs[j]) })
 	for _, f := range funcs {
